@@ -231,11 +231,15 @@ Decode(l) ==
 (*                     propositions (redundant parentheses are licensed),  *)
 (*    cfill : Seq(code point) the text put inside comments]                *)
 (* A *layout* is [sites : SUBSET [b, k, pos], wraps : SUBSET index of      *)
-(* ranges, semi : 0/1]; k \in NoiseKinds; pos = "L": right after token b   *)
-(* (before the canonical space), "R": right before token b+1.              *)
+(* ranges, nests : SUBSET [w, d, k], semi : 0/1]; k \in NoiseKinds;         *)
+(* pos = "L": right after token b (before the canonical space), "R": right *)
+(* before token b+1.  A nest [w, d, k] puts d >= 2 pairs of redundant      *)
+(* parentheses around range w with noise k between every two layers, on    *)
+(* the opening and on the closing side:  ( k ( k ( e ) k ) k ).            *)
 NoiseKinds == {"sp", "nl", "hash", "block"}
-EmptyLayout == [sites |-> {}, wraps |-> {}, semi |-> 0]
-LayoutSize(lay) == Cardinality(lay.sites) + Cardinality(lay.wraps) + lay.semi
+EmptyLayout == [sites |-> {}, wraps |-> {}, nests |-> {}, semi |-> 0]
+LayoutSize(lay) == Cardinality(lay.sites) + Cardinality(lay.wraps)
+                   + Cardinality(lay.nests) + lay.semi
 
 NoiseText(k, cfill) ==
   CASE k = "sp"    -> <<SP>>
@@ -249,16 +253,27 @@ SiteText(c, lay, b, pos) ==
 
 Rep(ch, n) == [i \in 1..n |-> ch]
 
+(* d layers of the bracket ch with the noise between consecutive layers.   *)
+RECURSIVE Layers(_, _, _)
+Layers(ch, d, between) ==
+  IF d <= 1 THEN <<ch>> ELSE <<ch>> \o between \o Layers(ch, d - 1, between)
+NestText(c, lay, ch, sel, noisy) ==   \* sel: the nests that open / close here
+  IF sel = {} THEN <<>>
+  ELSE LET n == CHOOSE x \in sel : TRUE IN
+       Layers(ch, n.d, IF noisy THEN NoiseText(n.k, c.cfill) ELSE <<>>)
+
 (* What stands at boundary b: closing redundant parentheses of ranges that *)
 (* end at token b, the trailing ';', noise, the canonical space, noise,    *)
 (* opening redundant parentheses of ranges that start at token b+1.        *)
 Boundary(c, lay, b, noisy) ==
   LET n == Len(c.toks) IN
   Rep(RP, Cardinality({w \in lay.wraps : c.ranges[w][2] = b}))
+  \o NestText(c, lay, RP, {x \in lay.nests : c.ranges[x.w][2] = b}, noisy)
   \o (IF b = n /\ lay.semi = 1 THEN <<SEMI>> ELSE <<>>)
   \o (IF noisy THEN SiteText(c, lay, b, "L") ELSE <<>>)
   \o (IF c.sep[b + 1] = 1 THEN <<SP>> ELSE <<>>)
   \o (IF noisy THEN SiteText(c, lay, b, "R") ELSE <<>>)
+  \o NestText(c, lay, LP, {x \in lay.nests : c.ranges[x.w][1] = b + 1}, noisy)
   \o Rep(LP, Cardinality({w \in lay.wraps : c.ranges[w][1] = b + 1}))
 
 RECURSIVE RenderFrom(_, _, _, _, _)
@@ -281,9 +296,18 @@ CanInsert(c, lay, b, pos) ==
   /\ ~\E s \in lay.sites : s.b = b /\ s.pos = pos
 Insert(lay, b, k, pos) ==
   [lay EXCEPT !.sites = @ \cup {[b |-> b, k |-> k, pos |-> pos]}]
-CanWrap(c, lay, w) == w \in 1..Len(c.ranges) /\ w \notin lay.wraps
+CanWrap(c, lay, w) == /\ w \in 1..Len(c.ranges) /\ w \notin lay.wraps
+                      /\ \A x \in lay.nests : x.w # w
 WrapRange(lay, w) == [lay EXCEPT !.wraps = @ \cup {w}]
 AddSemi(lay) == [lay EXCEPT !.semi = 1]
+(* at most one nest opens and one nest closes at a boundary, and a range   *)
+(* is either wrapped once or nested                                        *)
+CanNest(c, lay, w) ==
+  /\ w \in 1..Len(c.ranges) /\ w \notin lay.wraps
+  /\ \A x \in lay.nests : /\ c.ranges[x.w][1] # c.ranges[w][1]
+                          /\ c.ranges[x.w][2] # c.ranges[w][2]
+NestRange(lay, w, d, k) ==
+  [lay EXCEPT !.nests = @ \cup {[w |-> w, d |-> d, k |-> k]}]
 
 (* MODEL THEOREM: noise insertion leaves Tokens unchanged.                 *)
 TokensPreservedFor(c, lay) ==
